@@ -2,7 +2,7 @@
 # usage: confirmseed.sh <seed dir with patch.diff, demo/, notes.md> <name> [demo-dest-dir-relative-to-repo-root]
 # Confirms, in a scratch worktree: demo passes unchanged; with the patch the suite passes and the demo fails.
 export GOFLAGS=-mod=mod GOPROXY=off GOSUMDB=off GOTOOLCHAIN=local
-sd=$1; name=$2; dest=${3:-.}
+sd=$(readlink -f "$1"); name=$2; dest=${3:-.}
 wt=/tmp/confirm-$name
 git -C /repo worktree remove --force $wt >/dev/null 2>&1
 git -C /repo worktree add -q $wt HEAD || exit 2
